@@ -1,3 +1,67 @@
 package main
 
-func checkGenerator(r *run) {}
+import (
+	"bytes"
+	"fmt"
+	"os"
+	"os/exec"
+	"path/filepath"
+	"strings"
+)
+
+// checkGenerator re-runs the repository's own generator (cmd/) on a scratch copy of the tree under
+// check and compares the three generated files byte for byte with the committed ones.
+func checkGenerator(r *run) {
+	scratch, err := os.MkdirTemp("", "verif-c12-")
+	if err != nil {
+		r.inconcl = append(r.inconcl, "cannot create scratch dir: "+err.Error())
+		return
+	}
+	defer os.RemoveAll(scratch)
+	// copy the working tree without .git
+	cp := exec.Command("bash", "-c", fmt.Sprintf("cd %q && tar --exclude=.git -cf - . | tar -xf - -C %q", repoDir, scratch))
+	if out, err := cp.CombinedOutput(); err != nil {
+		r.inconcl = append(r.inconcl, "cannot copy the tree: "+err.Error()+" "+string(out))
+		return
+	}
+	gen := exec.Command("go", "run", ".", "extract", "-l", "-e")
+	gen.Dir = filepath.Join(scratch, "cmd")
+	gen.Env = append(goEnv(), "GOFLAGS=-mod=mod")
+	var buf bytes.Buffer
+	gen.Stdout = &buf
+	gen.Stderr = &buf
+	if err := gen.Run(); err != nil {
+		r.addViolation("generator-fails", "C12.generator", "the generator (cd cmd && go run . extract -l -e) fails on the tree: "+trunc(buf.String(), 800), mustJSON(map[string]string{"kind": "generator"}), 1)
+		return
+	}
+	r.evals++
+	for _, f := range []string{"get_licenses.go", "get_deprecated.go", "get_exceptions.go"} {
+		rel := filepath.Join("spdxexp", "spdxlicenses", f)
+		a, err1 := os.ReadFile(filepath.Join(repoDir, rel))
+		b, err2 := os.ReadFile(filepath.Join(scratch, rel))
+		if err1 != nil || err2 != nil {
+			r.addViolation("generator-output-missing:"+f, "C12.generator", fmt.Sprintf("cannot read %s: %v %v", rel, err1, err2), mustJSON(map[string]string{"kind": "generator", "file": f}), 1)
+			continue
+		}
+		r.counters["generator_files_compared"]++
+		r.counters["generator_bytes_compared"] += int64(len(a))
+		if !bytes.Equal(a, b) {
+			la, lb := strings.Split(string(a), "\n"), strings.Split(string(b), "\n")
+			diff := ""
+			for i := 0; i < len(la) || i < len(lb); i++ {
+				x, y := "", ""
+				if i < len(la) {
+					x = la[i]
+				}
+				if i < len(lb) {
+					y = lb[i]
+				}
+				if x != y {
+					diff = fmt.Sprintf("first difference at line %d: committed %q, regenerated %q", i+1, strings.TrimSpace(x), strings.TrimSpace(y))
+					break
+				}
+			}
+			r.addViolation("generator-diff:"+f, "C12.generator", fmt.Sprintf("re-running the generator does not reproduce %s byte for byte; %s", rel, diff), mustJSON(map[string]string{"kind": "generator", "file": f}), 1)
+		}
+	}
+}
